@@ -10,6 +10,7 @@ boundaries as functions of the type mode (core Lean only), built ON C03's model.
                             Context.fetchArgValue → requiredTypeByteCodeImpl → strictConformanceCheck /
                             relaxedConformanceCheck → data.Coerce          (bytecode/arg.go, types.go)
   * return boundary       : `retK`  = coerceByteCode / requireMatch        (bytecode/coerce.go)
+  * `retRef`              : the return boundary for array / map / struct / pointer values — identity kept, rebuilt or error
   * `argB` / `retB`       : the same two boundaries for the declared types outside the integer
                             kinds that the code treats specially: `interface{}` and the nillable
                             types (map / slice / pointer), with `nil` as a value.
@@ -167,6 +168,38 @@ def retNilPre (m : Mode) (isMapOrSlice : Bool) : BRes :=
   | .strict => .nil
   | _ => if isMapOrSlice then .err .invalidType else .nil
 
+
+/-! ### return boundary, reference values (array, map, struct, pointer): what happens to the IDENTITY
+
+A container that crosses the return boundary is not described by its contents alone: the caller can
+write through the result and read through the name the callee returned (`func rows() []int { return
+table }`).  `retRef` says whether coerceByteCode pushes the operand ITSELF (`same`), a freshly built
+container with converted elements (`rebuilt`), or fails.  Go's `data.Type.IsType` is an external
+primitive here: its two answers `vIsT = TypeOf(v).IsType(t)` and `tIsV = t.IsType(TypeOf(v))` are
+parameters (the harness computes them with the real function). -/
+
+inductive RefKind where
+  | arr | map | struct | ptr
+  deriving DecidableEq, Repr
+
+inductive RefRes where
+  | same | rebuilt | err (e : BErr)
+  deriving DecidableEq, Repr
+
+/-- coerceByteCode with a non-constant, non-nil reference value `v` and declared type `t`:
+    * strict: requireMatch — `vt.IsType(t)` pushes v, otherwise ErrTypeMismatch;
+    * otherwise: map / struct / array results must satisfy `t.IsType(vt)` (ErrInvalidType); then the kind
+      switch: MapKind does nothing, StructKind runs coerceStruct (which returns the same *data.Struct),
+      and the `default` arm (arrays, pointers) takes the "already the same type, no work" shortcut
+      `vt.IsType(t)` and only otherwise rebuilds an array element by element (a pointer is pushed as is). -/
+def retRef (m : Mode) (k : RefKind) (vIsT tIsV : Bool) : RefRes :=
+  match m with
+  | .strict => if vIsT then .same else .err .typeMismatch
+  | _ =>
+    match k with
+    | .map | .struct => if tIsV then .same else .err .invalidType
+    | .arr => if !tIsV then .err .invalidType else if vIsT then .same else .rebuilt
+    | .ptr => .same
 
 /-! ### the statement language -/
 
